@@ -7,6 +7,7 @@ SCHED = "stateless model checking: exhaustive DFS over goroutine schedules (pree
 CHECKS = {
  "C01": ("exploration", "every CNF of the families T2/S3/S4/L6/M x entry point x learned-clause limit x heuristic choice list (deviation bounded): verdict, model length and model validity against a truth table; termination by step budget", "§4 C01", EXPL),
  "C02": ("exploration", "every set (size 1-2, plus unit constraints) of cardinality / PB constructor calls over 2-3 variables with weights in [-2..2] and every degree, and decreasing-coefficient constraints under every partial unit assignment, x heuristic choice list: verdict and model against integer arithmetic on the constraints as written", "§4 C02", EXPL),
+ "C03": ("exploration", "(constraint set, cost function, entry point) triples: small CNF, cardinality and PB sets x every cost function over <=3-4 distinct variables (either polarity, weights nil / {0..2} / negative through OPB, or none) x {Optimal(nil), Optimal(chan), Minimize} x heuristic choice list (<=1 deviation over the whole optimisation loop): verdict, model validity, reported cost = cost(model) = truth-table minimum, result stream strictly decreasing and ending with the returned result", "§4 C03", EXPL),
  "C05": ("exploration", "problems (CNF families incl. declared-but-unused variables and the empty problem, cardinality/PB sets) x {CountModels, Enumerate with/without channel, each also after a Solve} x heuristic choice list (<=1 deviation): count and delivered model multiset against the truth-table model set, channel closed", "§4 C05", EXPL),
  "C09": ("exploration", "all histories over {Solve, AppendClause(c)} with 1 appended constraint from the full alphabet (clauses with repeats/tautologies/fresh variable, NewCardClause, NewPBClause), 2 from a reduced alphabet under every Solve placement, 3 short clauses, on every small base problem, x heuristic choice list (<=1 deviation): every Solve against the truth table of the conjunction so far; Unsat sticky", "§4 C09", EXPL),
  "C10": ("exploration", "every sequence of <=3 rounds of Assume(list)+Solve with every list of <=2 literals (empty, repeated, contradictory) on every small base problem (with/without units, parse-time facts, parse-time Unsat) x heuristic choice list (<=1 deviation): every round against the truth table of base AND that round's assumptions", "§4 C10", EXPL),
